@@ -96,4 +96,89 @@ CLAIMS = {
   technique="static analysis: type-resolved formatting lint (mypy), spec tables, data-flow mapping lint"),
 }
 
+_LED = _TB + "may-raise/mutates summaries over mypy-resolved callees; environment lookups (precision/price/conditions configured) excluded with reasons; asserts are stated beliefs. "
+CLAIMS.update({
+ "C01": dict(
+  text="Effect typing of every ledger write: single writer of the three ledger maps, census of every AccountBalances.update site "
+       "classified into hold-only | fill | loan-open | loan-repay | loan-cancel (anything else is a violation), same-value rules "
+       "(delta applied == fill + fees recorded, both rounded before and untouched in between; interest debited == interest recorded, "
+       "recorded only after the commit), all-or-nothing update (commit-last walk), reported-total formula, ValueMap operator "
+       "siblings. Conservation then follows by induction over write sites; Decimal arithmetic is not claimed.",
+  design_ref="DESIGN.md section 5, C01", note=_LED,
+  technique="static analysis: who-may-write, call-site census by argument shape, same-value / dominance rules on the CFG"),
+ "C02": dict(
+  text="One writer that commits only after every installed rule passed; NonZero and ValidHold installed and never removed; their "
+       "guards evaluated exhaustively on threshold cells / orderings (raise exactly on <0 and on hold>balance); every borrowed "
+       "delta lives in LoanManager and is paired, with nothing that may raise in between, with registering/closing the loan "
+       "whose fixed principal is the delta; overdrawing fills are turned into 'not filled'. Numeric values are not claimed.",
+  design_ref="DESIGN.md section 5, C02", note=_LED,
+  technique="static analysis: threshold cells, pairing (commit -> register/close) with may-raise summaries, who-may-write"),
+ "C04": dict(
+  text="Exhaustive abstract interpretation of the four order classes over all weak orderings of {open,high,low,close,limit,stop} "
+       "consistent with the bar invariant x 4 orderings of {0,pending,liquidity} x BUY/SELL x latch (about 11,000 abstract runs): "
+       "price/trigger/completeness/amount obligations on every outcome; quote re-derived from the truncated base before rounding; "
+       "request validation on threshold cells and precision grid before the order exists. Slippage size and rounding are not claimed.",
+  design_ref="DESIGN.md section 5, C04", note=_TB + "sa/absint.py; prices > 0 and impact >= 0 are asserted/validated in the code.",
+  technique="static analysis: abstract interpretation over weak orderings (exhaustive), data-dependence rule, threshold cells"),
+ "C05": dict(
+  text="Typestate of Order._state with who-may-call closure of every transition, completion test on the 3 orderings of {filled, "
+       "amount}, fill-or-kill siblings, fill amounts from the shared exhaustive interpretation, event pairing on the CFG (one event "
+       "per acceptance/fill/closure, after the last mutation, with the bar's time), lazy re-index discipline of the open list. "
+       "Event time order across bars is C12.",
+  design_ref="DESIGN.md section 5, C05", note=_LED,
+  technique="static analysis: typestate + who-may-call, CFG pairing rules, abstract interpretation (shared with C04)"),
+ "C06": dict(
+  text="Hold == record == estimate in add_order; every closing statement is followed by the release unless the order is tested "
+       "open; release shapes of _update_balances; who-may-hold; frame rule for update rules by parameter dependence (a rule that "
+       "does not read holds must exit early when what it reads is unchanged); sibling agreement of the reservation estimate with "
+       "the fill pipeline. The one-precision-unit acceptance boundary is arithmetic and not claimed.",
+  design_ref="DESIGN.md section 5, C06", note=_LED,
+  technique="static analysis: same-value/pairing on the CFG, parameter-dependence frame rule (CHA), sibling cross-check"),
+ "C07": dict(
+  text="Commit-last walk of every request entry point and helper: no call that may raise after a persistent mutation unless a "
+       "handler applies the registered inverse to everything done so far, covers everything the call can raise and re-raises; "
+       "functions that pass are transactional for their callers; four call-site lemmas are stated with reasons and their "
+       "structural premises checked; guards dominate mutations. Feasibility is not decided (may-raise).",
+  design_ref="DESIGN.md section 5, C07", note=_LED,
+  technique="static analysis: commit-last dataflow on the CFG with interprocedural may-raise / mutates summaries"),
+ "C08": dict(
+  text="One liquidity strategy instance per bar (definitions before the loop, on_bar outside it); take_liquidity exactly once after "
+       "the commit with |rounded base|; fill <= liquidity and fill-or-kill from the shared exhaustive interpretation; base "
+       "truncated, quote rounded last, fees rounded away from zero per symbol, interest truncated before debit; rounding helpers.",
+  design_ref="DESIGN.md section 5, C08", note=_LED,
+  technique="static analysis: reaching-definitions/dominance rules, quantisation (last-write) rule, abstract interpretation (shared)"),
+ "C09": dict(
+  text="Thin claim: the storing guard of Percentage.calculate_fees evaluated on threshold cells (entry exactly when pending < 0), "
+       "quote-symbol key, NoFee empty on every path, dependence set of the charged amount (cumulative quote, this fill, already "
+       "charged, percentage, minimum; total-due minus charged), charged == recorded, rounded up once, who-may-call. The arithmetic "
+       "identity for every partition is not claimed.",
+  design_ref="DESIGN.md section 5, C09", note=_TB,
+  technique="static analysis: threshold cells, backward slice (dependence set), who-may-call"),
+ "C11": dict(
+  text="Closed list of ways a loan can close decided on the call graph; repay_loan same-value and ordering rules (truncate before "
+       "debit, one atomic update of shape loan-repay, record/close/pop after and whenever committed); auto-repay candidate "
+       "selection, descending principal order and skip-on-NotEnoughBalance; interest lower bound and symbol. Interest arithmetic "
+       "is not claimed.",
+  design_ref="DESIGN.md section 5, C11", note=_LED,
+  technique="static analysis: typestate + who-may-call, CFG ordering rules, idiom lint"),
+ "C12": dict(
+  text="Three guarded writers of the clock and the clock store dominating every push of a pass; un-timed barrier; multiplexer "
+       "slot discipline and selection test; same bound for jobs and events; one push per popped event with its own source's "
+       "handlers; three awaited stages in order; duplicate-free subscription. Global order is argued from these, not explored.",
+  design_ref="DESIGN.md section 5, C12", note=_TB,
+  technique="static analysis: who-may-write, CFG dominance / post-dominance, shape lint"),
+ "C15": dict(
+  text="Thin claim: due test dominates every pop, events bounded by one clock reading per iteration, timed wait; out-of-order branch "
+       "reports and skips before any push, predecessor updated only for delivered events; _on_idle control-dependent on idle, and "
+       "the tracked-task set only changed by add / removal of finished tasks. Liveness and timing are not claimed.",
+  design_ref="DESIGN.md section 5, C15", note=_TB,
+  technique="static analysis: CFG dominance rules, who-may-write"),
+ "C20": dict(
+  text="Thin claim: session verbs reachable only from the two throttled request functions where consume()+sleep dominate the send; "
+       "every return of consume() dominated by clock read, re-stamp, refill, cap and one decrement in order; returned wait "
+       "evaluated on the cells of the token count (never negative); no suspension point. The rate bound is arithmetic, not claimed.",
+  design_ref="DESIGN.md section 5, C20", note=_TB,
+  technique="static analysis: who-may-call, must-pass-through on the CFG, threshold cells"),
+})
+
 NOT_APPLICABLE = {}
